@@ -241,6 +241,14 @@ def run(tier, seed, stop_first=False):
     if not first or after_d or not after_e:
         report('hierarchy-change', i=-3, j=0, s='HA : HFoo<Int>, HFoo<T> : HC, HC : HD -> HC : HE', t='HD / HE',
                real=(first, after_d, after_e), declarative=(True, False, True))
+    # the built-in (non-generic) types of the four language modules: the answer coincides with reachability over the
+    # declared supertypes (the statement's fragment includes built-ins), bottom below everything
+    for lang, a, b, real, ref in builtin_pairs():
+        evals += 1
+        if ref:
+            nontrivial.add(('builtin', lang, a, b))
+        if real != ref:
+            report('builtin-exact:' + lang, i=-4, j=0, lang=lang, s=a, t=b, real=real, declarative=ref)
     # bottom
     for nothing in (kt.Nothing, tp.Nothing):
         for j, t in enumerate(universe):
@@ -251,14 +259,57 @@ def run(tier, seed, stop_first=False):
                 rule='all ordered pairs of a %d-type universe (5 simple classes, 6 generic classes with all declared variances incl. a three-level generic chain, '
                      'depth-2 instantiations with out/in projections) compared with the executable least fixpoint of the '
                      'declarative rules; reflexivity on every type; transitivity on all related triples; bottom below every '
-                     'type; 24 bare generic classes against their declared supertype (own type parameter plain / projected / nested / absent). '
+                     'type; 24 bare generic classes against their declared supertype (own type parameter plain / projected / nested / absent); all pairs of non-generic built-in types of the four language modules against reachability over their declared supertypes. '
                      'Non-trivial: distinct pairs related by the declarative relation' % len(universe),
                 samples=samples, exhaustive=True, violations=violations)
+
+
+def builtin_pairs():
+    """(language, S, T, real answer, declared reachability) for all pairs of non-generic built-in types of a language module"""
+    import importlib
+    import src.ir.types as tp
+    out = []
+    for lang in ('kotlin', 'java', 'groovy', 'scala'):
+        mod = importlib.import_module('src.ir.%s_types' % lang)
+        objs = {}
+        for nm in sorted(dir(mod)):
+            v = getattr(mod, nm)
+            if isinstance(v, tp.Builtin) and not isinstance(v, (tp.TypeConstructor, tp.ParameterizedType)) \
+                    and not nm.startswith('_'):
+                objs[nm] = v
+        def reach(a, b):
+            seen, todo = [], [a]
+            while todo:
+                x = todo.pop()
+                if x.__class__ is b.__class__:
+                    return True
+                if any(x.__class__ is y.__class__ for y in seen):
+                    continue
+                seen.append(x)
+                todo.extend(getattr(x, 'supertypes', []) or [])
+            return False
+        for an, a in objs.items():
+            for bn, b in objs.items():
+                if 'Nothing' in a.__class__.__name__:
+                    ref = True
+                else:
+                    ref = reach(a, b)
+                try:
+                    real = bool(a.is_subtype(b))
+                except Exception as e:          # an exception is not an answer
+                    real = 'raises %s' % type(e).__name__
+                out.append((lang, an, bn, real, ref))
+    return out
 
 
 def replay(fi):
     u = build()
     universe, norm, sub, tp, kt = u['universe'], u['norm'], u['sub'], u['tp'], u['kt']
+    if fi['i'] == -4:
+        bad = [(l, a, b, r, d) for l, a, b, r, d in builtin_pairs() if l == fi['lang'] and a == fi['s'] and b == fi['t']]
+        for l, a, b, r, d in bad:
+            print('%s built-ins: %s <: %s : real=%s declared reachability=%s' % (l, a, b, r, d))
+        return all(r == d for _, _, _, r, d in bad)
     if fi['i'] == -3:
         r = run('quick', 0)
         bad = [v for v in r.get('violations', []) if v['check'] == fi['check']]
